@@ -7,6 +7,12 @@ TRUSTED_BASE = [
 ]
 
 PROPS = {
+    "C04": dict(
+        assumptions=["the matcher cache is modelled as: per compiled matcher, the role managers as its memoising g-functions see them (a snapshot taken at compilation); this abstracts the lazily filled memo of util.GenerateGFunction by its stalest possible content",
+                     "SetRoleManager is modelled as the supported idiom SetNamedRoleManager(new default manager) followed by BuildRoleLinks; SetModel as SetModel(same definitions) (a fresh state keeping adapter and functions)",
+                     "theorems cover role managers without matching functions (EnfP.prm = []); histories with AddNamed(Domain)MatchingFunc are covered by the correspondence run (pattern-manager model) and by the implementation-level comparison with a fresh enforcer"],
+        trusted=["modelled: invalidateMatcherMap call sites as in enforcer.go/internal_api.go (BuildIncrementalRoleLinks, ClearPolicy, applyModifiedModel, SetRoleManager, AddNamed(Domain)MatchingFunc, loadFilteredPolicy, initialize), getAndStoreMatcherExpression, GenerateGFunction's memo (as a snapshot), RoleManagerImpl/DomainManager with matching functions (PatternRM.lean)"],
+    ),
     "C05": dict(
         assumptions=["role managers without matching functions (plain RoleManagerImpl, per-domain DomainManager); pattern-matching and conditional managers are exercised by the correspondence run only (model PatternRM, no theorem yet)",
                      "hypotheses WFState/opWF: grouping rules of the definition's arity with comma-free fields, role definitions with two or three places (a plain manager exactly for two places), updates to fresh rules; what they exclude are recorded findings (arity is never checked for g; UpdatePolicy to a listed rule duplicates)"],
@@ -54,6 +60,7 @@ PROPS = {
 }
 
 LEVEL_TEXT = {
+    "C04": "Proved in Lean by invariant over arbitrary interleavings of Enforce (model matcher or custom matcher) with management calls, ClearPolicy and BuildRoleLinks: every cached compiled matcher sees role managers that answer like the current ones (CacheFresh; inv_applyM, inv_enforce, inv_history), hence every decision is the PERM reference decision on the rules listed now (enforce_current) and two enforcers holding the same listed rules decide alike whatever their histories (same_rules_same_decision: live vs freshly constructed). Tie: all call sequences of depth <=3 (quick) / <=4 (thorough) over 16 calls incl. SetRoleManager, AddNamedMatchingFunc, AddNamedDomainMatchingFunc, SetModel, LoadPolicy on pattern-name RBAC and pattern-domain models, all requests enforced after every call, compared with the Lean model (incl. the pattern role manager model), with the reference on listed rules, and on the implementation with a freshly constructed enforcer.",
     "C05": "Proved in Lean by invariant: from a well-formed state in which every role manager holds exactly the links of the grouping rules listed for its definition, every management call (single, batch, Ex, update, batch update, filtered removal on p or g), ClearPolicy and BuildRoleLinks leads to such a state again, whatever the adapter (incl. failing calls) and watcher do (mirror_step, mirror_hist); hence HasLink holds exactly for roles reachable within the hierarchy depth through the rules listed for that domain (hasLink_iff_listed_reach), equals the g() of the PERM reference (hasLink_eq_specLink), answers like a manager rebuilt from GetGroupingPolicy alone (answers_like_rebuild), and links never leak between domains or role definitions. Tie: all histories of depth <=3 (quick) / <=4 (thorough) over 19 grouping calls incl. ClearPolicy/LoadPolicy/SavePolicy for plain, domain and two-definition models, HasLink/GetRoles/GetUsers over the whole universe after every call, plus random histories with over-long rules.",
     "C14": "Proved in Lean for every history of calls, every request tuple (arbitrary byte strings incl. the separator, cacheable and uncacheable parameters) and every clock: whatever a cached enforcer answers was the underlying enforcer's answer to that same tuple, now or at an earlier Enforce separated from now by no InvalidateCache/LoadPolicy/ClearPolicy/removal (synced: or addition) of the identical rule and by at most the configured lifetime (served_was_given); the cache key is injective on request tuples (cacheKey_injective); errors pass through, uncacheable requests and a disabled cache bypass. Tie: seeded random histories (and real-time lifetime cases) on the real CachedEnforcer and SyncedCachedEnforcer; every served answer is compared with the model and must be admissible.",
     "C08": "Proved in Lean for every text: blank/comment lines outside a continuation, whitespace around lines, CRLF endings, backslash continuation at a blank and the order of sections with distinct names do not change the configuration read by the mirror of parseBuffer (hence not the definitions, a function of it); a one-line definition is stored in full whatever its length; parsing is total. Tie: every examples/*.conf and generated texts x all layout transformations at every position (incl. padding and splitting past 4 KiB) and 2 000 / 60 000 malformed texts through the real NewModelFromString, assertion by assertion.",
@@ -70,4 +77,4 @@ NOT_APPLICABLE = {
 }
 
 # properties whose check is complete (theorems proved, correspondence wired) and therefore claimed in MANIFEST.json
-CLAIMED = ["C01", "C02", "C05", "C06", "C08", "C09", "C14"]
+CLAIMED = ["C01", "C02", "C04", "C05", "C06", "C08", "C09", "C14"]
